@@ -10,7 +10,7 @@
    EGraph::check (canonical shapes, hash-cons injectivity, slot coverage).  Those are decided per run:
    after EVERY operation of every explored history the implementation is compared with the model and
    judged by check() and the consistency predicates, in the default and the checks build. *)
-From SE Require Import EGraph.Model EGraph.ModelMachine EGraph.ModelFacts.
+From SE Require Import EGraph.Model EGraph.ModelMachine EGraph.ModelFacts EGraph.UnionFindFacts.
 
 Theorem C08_wf_initial : eg_wf empty_egraph.
 Proof. exact eg_wf_empty. Qed.
@@ -32,6 +32,27 @@ Print Assumptions C08_only_alloc_allocates.
 Theorem C08_known_insertion_is_identity : forall s n a, eg_lookup s n = Ok (Some a) -> eg_add n s = Ok (a, s).
 Proof. exact eg_add_known. Qed.
 Print Assumptions C08_known_insertion_is_identity.
+
+
+(* the union-find of every reachable model state is acyclic (ranked), entries stay in bounds, leaders
+   carry partial identity maps — through add, union and the whole of rebuild *)
+Theorem C08_unionfind_ok_reachable : forall terms ops hs s,
+  run_ops terms ops [] empty_egraph = Ok (hs, s) -> uf_ok s.
+Proof. exact uf_ok_reachable. Qed.
+Print Assumptions C08_unionfind_ok_reachable.
+
+(* hence canonicalisation never exhausts its fuel (the model's only non-Rust error value) and its only
+   possible error is an id that was never allocated *)
+Theorem C08_find_total : forall s a e, uf_ok s -> find_applied_id s a = Err e ->
+  e = OutOfBounds /\ (List.length (unionfind s) <= N.to_nat (aid a))%nat.
+Proof. exact find_applied_id_err. Qed.
+Print Assumptions C08_find_total.
+
+(* the consistency clause "canonicalising an invocation twice equals canonicalising it once" *)
+Theorem C08_canonicalisation_idempotent : forall s a b, uf_ok s ->
+  find_applied_id s a = Ok b -> find_applied_id s b = Ok b.
+Proof. exact find_idempotent. Qed.
+Print Assumptions C08_canonicalisation_idempotent.
 
 Definition C08_no_error_full : Prop :=
   forall terms ops, exists hs s, run_ops terms ops [] empty_egraph = Ok (hs, s).
